@@ -26,6 +26,7 @@ def plan(tier, seed):
     quick = tier == "quick"
     secs = 25 if quick else 300
     shards = [{"name": f"complete{i}", "gen": "complete", "seconds": secs} for i in range(10)]
+    shards.append({"name": "big", "gen": "big", "seconds": secs})  # expressions longer than any plausible fixed limit
     for g in ("layer", "seedmut", "soup", "ctxdec"):
         shards.append({"name": g, "gen": g, "seconds": secs})
     from vf.gens import skel
